@@ -414,8 +414,9 @@ def run_program_pair(spec):
                 log.append("setUp")
                 self.addCleanup(lambda: log.append("first-registered cleanup"))
                 # a cleanup that takes positional and keyword arguments
-                self.addCleanup(lambda what, marker="?", fn=None: (log.append("cleanup"), act(self, what, deferred_mode, marker))[1],
-                                spec["cleanup"], marker="cleanup", fn="a keyword name the plumbing uses itself")
+                self.addCleanup(lambda what, marker="?", fn=None, f=None: (log.append("cleanup"), act(self, what, deferred_mode, marker))[1],
+                                spec["cleanup"], marker="cleanup", fn="a keyword name the plumbing uses itself",
+                                f="the name of maybeDeferred's own first parameter")
                 return act(self, spec["setUp"], deferred_mode, "setUp")
 
             def test_it(self):
